@@ -12,6 +12,7 @@ mod c11;
 mod c12;
 mod c13;
 mod c14;
+mod c15;
 mod c16;
 mod c17;
 mod c18;
@@ -66,6 +67,7 @@ fn main() {
         "C10" => c10::main(&args),
         "C12" => c12::main(&args),
         "C13" => c13::main(&args),
+        "C15" => c15::main(&args),
         "C14" => c14::main(&args),
         "setup" => {
             // generate and build every quick-tier corpus so that the first quick check is fast
